@@ -150,10 +150,13 @@ PLANS['C15'] = Plan(
 
 WCF = 'src/workflow_coordinator.py::_WorkflowCoordinator.'
 PLANS['C07'] = Plan(
-    'C07', [WCF + '__align', WCF + '__getBestAlignment', 'src/alignment/segment_chainer.py::SequentialityScorer.getScore'], 'other',
+    'C07', [WCF + '__align', WCF + '__getBestAlignment', 'src/alignment/segment_chainer.py::SequentialityScorer.getScore', WCF + 'execute',
+            'src/alignment/segments.py::AlignmentSegment.slice'], 'other',
     "Deductive part (exception-freedom of the per-query glue, safety obligations generated automatically by the VC generator): _WorkflowCoordinator.__align "
     "never raises - in particular the unpacking of zip(*rows) is only reached with at least one candidate row - and __getBestAlignment returns None exactly for "
-    "an empty candidate list (else a maximal-confidence candidate); SequentialityScorer.getScore never divides by zero (both join-score variants); the numerical callees (FFT seeding, refinement, Aligner.align) are assumed contracts "
+    "an empty candidate list (else a maximal-confidence candidate); _WorkflowCoordinator.execute hands p_imap a worker count that is None or at least 1 "
+    "(precondition of the assumed pool contract, under the documented requirement that -c, if given, is positive) and never dereferences a None row; "
+    "SequentialityScorer.getScore never divides by zero (both join-score variants); AlignmentSegment.slice never indexes an empty list for the operand shapes of conflict resolution; the numerical callees (FFT seeding, refinement, Aligner.align) are assumed contracts "
     "(result types only). BOUNDED: the whole program on generated well-formed CMAP sets with degenerate molecules over-weighted, all output modes and several "
     "parameter settings: no exception, well-formed files, every written file (zero-record ones included) is read back by the project's XMAP reader.",
     bounded=_lazy('bcheck.c07', 'bounded'), replay=_lazy('bcheck.c07', 'replay'),
@@ -169,11 +172,12 @@ PLANS['C01'] = Plan(
             'src/alignment/segments.py::_SegmentPairWithConflict.resolveConflict', 'src/alignment/segments.py::AlignmentSegment.getReferenceLabels',
             'src/alignment/segments.py::AlignmentSegment.getQueryLabels', AE + 'align', AE + '__getNotAlignedPositions',
             'src/alignment/aligner.py::Aligner.getSegments', 'src/alignment/aligner.py::Aligner.align#peaks', 'src/alignment/aligner.py::Aligner.align#peak',
-            'src/alignment/alignment_results.py::AlignmentResultRow.resolve'] + CONFLICT_CHAIN, 'other',
+            'src/alignment/alignment_results.py::AlignmentResultRow.resolve', 'src/alignment/segment_chainer.py::SequentialityScorer.getScore'] + CONFLICT_CHAIN, 'other',
     "Deductive links (proved for all inputs): label numbers handed to the pairing step are shift+1..shift+n of the named map (getPositionsWithSiteIds), "
     "candidates pair window labels with query labels (__getAlignedPairs), after the two de-duplication passes a peak's pairs are one-to-one on both label "
     "numbers with strictly increasing reference labels (deduplicate), segments are contiguous runs of that list (segment builder), the chain is a "
-    "sub-list with each segment once (chain); the conflict cut is made on the label table chosen by the seed-peak order and at each segment's own m-th label "
+    "sub-list with each segment once and never joins two segments that overlap by more than half of the shorter one (chain; getScore returns -inf exactly "
+    "then, for both join-score variants and both strands); the conflict cut is made on the label table chosen by the seed-peak order and at each segment's own m-th label "
     "(resolveConflict, label tables, equal-index cut); conflict resolution never adds or moves positions (every resulting segment is an input segment or a "
     "sub-sequence of one, see C15), so every pair of every candidate row (Aligner.align, both argument shapes) and of every joined record "
     "(AlignmentResultRow.resolve: at most two segments, each derived from the FIRST segment of a part) is a pair produced by the pairing step for one of the "
@@ -185,12 +189,16 @@ PLANS['C01'] = Plan(
     technique='deductive per-function contracts (own VC generator + z3) for the per-peak links; bounded run-time contract on every record and candidate',
 )
 PLANS['C02'] = Plan(
-    'C02', [OMP + 'trim', OMP + 'getPositionsWithSiteIds', AR + 'create', AR + 'getUnalignedFragments'], 'other',
+    'C02', [OMP + 'trim', OMP + 'getPositionsWithSiteIds', AR + 'create', AR + 'getUnalignedFragments', AR + 'check_overlap', AR + 'resolve',
+            'src/alignment/alignment_results.py::AlignmentResults.resolve', 'src/alignment/aligner.py::Aligner.align#peaks', 'src/alignment/aligner.py::Aligner.align#peak'], 'other',
     "Deductive links: OpticalMap.trim (first label at 0, distances kept, length = last-first+1, id kept) and getPositionsWithSiteIds (label numbers refer to the "
     "whole molecule via shift; reverse strand mirrors about length-1, i.e. measures from the last label of a trimmed query); AlignmentResultRow.create derives "
     "RefStart/RefEnd as the smallest/largest reference coordinate of any pair and QryStart/QryEnd as the query coordinates of those two pairs, swapped on the "
     "reverse strand, and passes ids/lengths/strand through; every fragment handed to the second pass (getUnalignedFragments) carries the whole query's "
-    "id and length, is a slice of the query's positions and has shift = slice start, so second-pass label numbers refer to the whole query. BOUNDED: every record of every "
+    "id and length, is a slice of the query's positions and has shift = slice start, so second-pass label numbers refer to the whole query; a candidate row "
+    "carries the ids and lengths of the two maps it was aligned on (Aligner.align); a joined record is built only from two records of the same query, "
+    "REFERENCE and strand (AlignmentResults.resolve + check_overlap) and carries their ids, lengths and strand (AlignmentResultRow.resolve), so its pairs "
+    "are labels of the reference it names. BOUNDED: every record of every "
     "file of the real program is re-derived from the CMAP *text* with independent parsers (ids, lengths, start/end coordinates per orientation, entry ids, "
     "second-pass records numbered in whole-query labels).",
     bounded=_lazy('bcheck.c02', 'bounded'), replay=_lazy('bcheck.c02', 'replay'),
@@ -217,7 +225,7 @@ PLANS['C04'] = Plan(
     technique='deductive contracts for offset and segment score; bounded recomputation of every confidence from raw maps and command-line parameters',
 )
 PLANS['C05'] = Plan(
-    'C05', ['src/correlation/peaks_selector.py::PeaksSelector.selectPeaks', WCF + '__getBestAlignment',
+    'C05', ['src/correlation/peaks_selector.py::PeaksSelector.selectPeaks', WCF + '__getBestAlignment', WCF + 'execute',
             'src/alignment/alignment_results.py::AlignmentResults.filterOutSubsequentAlignmentsForSingleQuery',
             'src/multi_pass_workflow_coordinator.py::_MultiPassWorkflowCoordinator.execute'], 'other',
     "Deductive links: selectPeaks keeps the peaksCount highest-scoring peaks in descending order; __getBestAlignment returns a maximal-confidence candidate; "
@@ -326,12 +334,15 @@ PLANS['C10'] = Plan(
 )
 
 PLANS['C09'] = Plan(
-    'C09', [], 'other',
+    'C09', ['src/workflow_coordinator.py::_WorkflowCoordinator.execute'], 'other',
     "Contracts are silent on scheduling; what is checked deductively is the sequential core, as STATIC obligations on the AST of /repo on every run: the map "
     "used by _WorkflowCoordinator.execute is p_tqdm.p_imap (assumed contract: results in input order for every num_cpus); the per-run service objects are not "
     "mutated between queries (only AlignerEngine.iteration, which reaches results only through AlignedPair.source, itself read only by repr/hash/copy); no "
     "module-level mutable state and no clock/randomness on the pipeline path. Hence the row list is map(F, queries) for a function F of (references, query, "
-    "arguments). BOUNDED (the only part that exercises real scheduling): the real CLI with worker counts 1..16, repetitions and perturbed completion orders.",
+    "arguments): _WorkflowCoordinator.execute is under contract (one work item (referenceMaps, q) per query, in query order, through the assumed ordered map, "
+    "then an order-preserving filter), and Program.run hands the whole query list to the coordinator in ONE execute call (static premise; if it fails the "
+    "verdict is UNDECIDED, the property itself being decided by the bounded part). BOUNDED (the only part that exercises real scheduling): the real CLI "
+    "with worker counts 1..16, repetitions, perturbed completion orders, and one set of 300 queries (results must not depend on how much work one worker gets).",
     bounded=_lazy('bcheck.c09', 'bounded'), replay=_lazy('bcheck.c09', 'replay'), static=_lazy('bcheck.c09', 'static_obligations'),
     technique='static frame obligations on the real AST under an assumed ordered-map contract; bounded differential CLI runs across worker counts and perturbed schedules',
     assumptions=['p_tqdm.p_imap yields f(x0), f(x1), ... in input order for every num_cpus (assumed library contract)',
